@@ -113,6 +113,18 @@ CHECKS["C13"] = dict(
          "rule programs incl. shifted constraints, head-formula programs, formula constraints, observers sharing sub-formulas, shipped examples.",
     design="§6 C13", technique="Lean 4 proof (existence and uniqueness of the translation's formula values; partial) + metamorphic search on the implementation")
 
+CHECKS["C07"] = dict(
+    text="Theorems (Lean 4): tables_agree — the operator tables regenerated from the source on every run (#theory tel body/head "
+         "term definitions, #theory del, TheoryParser.table) are the documented tables; head_sub_body; *_pairs_triples — for EVERY "
+         "operator pair and triple of each table (unary × binary × binary with the unary operator in front of any operand, unary × "
+         "unary; 15 122 strings for the body table) the transcription of TheoryParser's stack machine reads the string exactly as "
+         "the documented precedence-climbing rule (an independent recursive specification): the property's quantifier is this "
+         "finite set, enumerated completely and evaluated by the Lean kernel (decide +kernel, no native_decide); arith_prefix — "
+         "create_number evaluates arithmetic prefixes.  Tie (L7): gringo's theory-term parser with the #theory text taken from the "
+         "source, and the real TheoryParser.parse, against the model on random operator strings incl. rejected ones.  Search: raw "
+         "formula vs its documented fully parenthesised reading, equal answer sets, in bodies, heads and &del.",
+    design="§6 C07", technique="Lean 4 proof (kernel-evaluated complete enumeration of operator pairs/triples against an independent precedence-climbing specification; tables extracted from source) + parser correspondence")
+
 NOT_YET = {}
 
 def main():
